@@ -690,6 +690,7 @@ func facetRoute(args []string) error {
 				c.NoParse = !parse
 				c.Alias = schemeOf
 				fmt.Fprintln(cw, leanServeLine(&c, parse, schemeOf))
+				c.Cancelled = !c.Inherit && len(cases)%7 == 3
 				cases = append(cases, c)
 			}
 		}
@@ -752,6 +753,7 @@ func facetRoute(args []string) error {
 				c.Query = q.Encode()
 				c.Alias = schemeOf
 				fmt.Fprintln(cw, leanServeLine(&c, true, schemeOf))
+				c.Cancelled = !c.Inherit && len(cases)%7 == 3
 				cases = append(cases, c)
 			}
 		}
@@ -797,6 +799,7 @@ func facetRoute(args []string) error {
 				c.NoParse = !parse
 				c.Alias = schemeOf
 				fmt.Fprintln(cw, leanServeLine(&c, parse, schemeOf))
+				c.Cancelled = !c.Inherit && len(cases)%7 == 3
 				cases = append(cases, c)
 			}
 		}
@@ -811,6 +814,9 @@ func facetRoute(args []string) error {
 		}
 		if cases[i].Inherit {
 			ex["context"] = "the request carries the context that the previous request of this session (same case id prefix, index - 1, same API value) had when it reached the outermost middleware"
+		}
+		if cases[i].Cancelled {
+			ex["context"] = "the request's context is already cancelled when ServeHTTP is called"
 		}
 		if cases[i].Reuse {
 			ex["session"] = "served on the API value of the previous case of this session"
